@@ -61,6 +61,15 @@ add('iso_time12', lambda d: '%04d-%02d-%02d %d:%02d%s' % (d.year, d.month, d.day
 add('iso_time12_dots', lambda d: '%04d-%02d-%02d %d:%02d:%02d %s' % (d.year, d.month, d.day, h12(d.hour), d.minute, d.second, 'a.m.' if d.hour < 12 else 'p.m.'), 's')
 add('iso_h12', lambda d: '%04d-%02d-%02d %d %s' % (d.year, d.month, d.day, h12(d.hour), ap(d.hour)), 'h')
 add('iso_h12_glued', lambda d: '%04d-%02d-%02d %d%s' % (d.year, d.month, d.day, h12(d.hour), ap(d.hour).lower()), 'h')
+# the time of day written before (or in the middle of) the date
+add('h12_glued_then_iso', lambda d: '%d%s %04d-%02d-%02d' % (h12(d.hour), ap(d.hour), d.year, d.month, d.day), 'h')
+add('h12_glued_on_mon_d_y', lambda d: '%d%s on %s %d, %04d' % (h12(d.hour), ap(d.hour).lower(), MON[d.month - 1], d.day, d.year), 'h')
+add('mon_d_h12_glued_y', lambda d: '%s %d %d%s %04d' % (MON[d.month - 1], d.day, h12(d.hour), ap(d.hour), d.year), 'h')
+add('time12_then_d_mon_y', lambda d: '%d:%02d%s %d %s %04d' % (h12(d.hour), d.minute, ap(d.hour).lower(), d.day, MON[d.month - 1], d.year), 'm')
+add('time12_sp_then_month_d_y', lambda d: '%d:%02d:%02d %s %s %d, %04d' % (h12(d.hour), d.minute, d.second, ap(d.hour), MONF[d.month - 1], d.day, d.year), 's')
+add('time_then_iso', lambda d: '%02d:%02d:%02d %04d-%02d-%02d' % (d.hour, d.minute, d.second, d.year, d.month, d.day), 's')
+add('time_us_then_d_mon_y', lambda d: '%02d:%02d:%02d.%06d %d %s %04d' % (d.hour, d.minute, d.second, d.microsecond, d.day, MON[d.month - 1], d.year), 'us')
+add('wd_d_mon_time_y', lambda d: '%s %d %s %02d:%02d:%02d %04d' % (WD[d.weekday()], d.day, MON[d.month - 1], d.hour, d.minute, d.second, d.year), 's')
 add('iso_hms', lambda d: '%04d-%02d-%02d %02dh%02dm%02ds' % (d.year, d.month, d.day, d.hour, d.minute, d.second), 's')
 def _fr(d, n):
     return ('%06d' % d.microsecond)[:n]
